@@ -11,6 +11,7 @@ import inspect
 import io
 import keyword
 import logging
+import operator
 import sys
 import time
 import traceback
@@ -86,6 +87,25 @@ TRIGGER_KWARGS = {
     "var_name",
     "value",
     "webhook_id",
+}
+
+#
+# in-place operators for augmented assignment statements
+#
+AUGASSIGN_OPS = {
+    ast.Add: operator.iadd,
+    ast.Sub: operator.isub,
+    ast.Mult: operator.imul,
+    ast.MatMult: operator.imatmul,
+    ast.Div: operator.itruediv,
+    ast.Mod: operator.imod,
+    ast.Pow: operator.ipow,
+    ast.LShift: operator.ilshift,
+    ast.RShift: operator.irshift,
+    ast.BitOr: operator.ior,
+    ast.BitXor: operator.ixor,
+    ast.BitAnd: operator.iand,
+    ast.FloorDiv: operator.ifloordiv,
 }
 
 WEBHOOK_METHODS = {
@@ -1430,14 +1450,32 @@ class AstEval:
 
     async def ast_augassign(self, arg):
         """Execute augmented assignment statement (lhs <BinOp>= value)."""
+        op_func = AUGASSIGN_OPS.get(arg.op.__class__)
+        if op_func is None:
+            raise NotImplementedError(f"{self.name}: not implemented augmented assignment {arg.op}")
         #
-        # evaluate a Load copy of the target; the AST is shared by every task running
-        # this code, so it must not be modified while other tasks may be interpreting it
+        # the operands of the target are evaluated exactly once, then the current value,
+        # then the right-hand side; the in-place operator is applied and the result stored
+        #
+        if isinstance(arg.target, ast.Subscript):
+            var = await self.aeval(arg.target.value)
+            idx = await self.aeval(arg.target.slice)
+            cur_val = var[idx]
+            var[idx] = op_func(cur_val, await self.aeval(arg.value))
+            return
+        if isinstance(arg.target, ast.Attribute) and await self.ast_attribute_collapse(arg.target) is None:
+            obj = await self.aeval(arg.target.value)
+            cur_val = getattr(obj, arg.target.attr)
+            setattr(obj, arg.target.attr, op_func(cur_val, await self.aeval(arg.value)))
+            return
+        #
+        # a plain name or a state variable: evaluate a Load copy of the target; the AST is
+        # shared by every task running this code, so it must not be modified
         #
         target = copy.copy(arg.target)
         target.ctx = ast.Load()
-        new_val = await self.aeval(ast.BinOp(left=target, op=arg.op, right=arg.value))
-        await self.recurse_assign(arg.target, new_val)
+        cur_val = await self.aeval(target)
+        await self.recurse_assign(arg.target, op_func(cur_val, await self.aeval(arg.value)))
 
     async def ast_annassign(self, arg):
         """Execute type hint assignment statement and track __annotations__."""
